@@ -1,11 +1,11 @@
 """The standard `search` function extension."""
 
 import regex as re
-from iregexp_check import check
 
 from jsonpath_rfc9535.function_extensions import ExpressionType
 from jsonpath_rfc9535.function_extensions import FilterFunction
 
+from ._pattern import check
 from ._pattern import map_re
 
 
